@@ -4,6 +4,7 @@ Property theorems only; helper lemmas live in Proofs/LV.lean, Proofs/Key.lean.
 -/
 import IdpyVerif.Proofs.LV
 import IdpyVerif.Proofs.Key
+import IdpyVerif.Proofs.SessionDB
 import IdpyVerif.Gen.Tables
 namespace Idpy.Props.C14
 open Idpy Idpy.LV Idpy.SessionDB
@@ -60,5 +61,33 @@ example : SepFree [[100, 105], [99, 49], [103]] ∧
   intro c hc
   simp [joinKey, Split.join2, semi_eq] at hc
   subst hc; simp [isWs_eq]
+
+/-! ### the session tree (literal model of the flat dictionary) -/
+
+/-- after ANY sequence of session creation, exchange grants, revocation at any level, removal,
+    deletion at any depth and flush there is one node per path: the keys of the flat dictionary are
+    pairwise different (distinct triples never share a stored node) -/
+theorem session_tree_keys_unique (ops : List Op) : Uniq (runOps [] ops) := uniq_reachable ops
+
+/-- a created session's grant is stored under user;;client;;grant exactly as created — for every
+    identifier string and every previous content of the database -/
+theorem created_grant_is_stored (db : DB) (u c g : Str) (k : Kind) :
+    lookup (addGrant db u c g k) (joinKey [u, c, g]) = some { kind := k, id := g, subs := [], revoked := false } :=
+  create_stores db u c g k
+
+/-- creating a session leaves every node outside its own branch (the keys of user, user;;client and
+    user;;client;;grant) exactly as it was -/
+theorem creation_is_local (db : DB) (u c g : Str) (k : Kind) (x : Str)
+    (hx : ∀ m, x ≠ joinKey ([u, c, g].take m)) : lookup (addGrant db u c g k) x = lookup db x :=
+  create_is_local db u c g k x hx
+
+/-- non-vacuity of the locality statement: another user's grant key is outside the branch -/
+example : ∀ m, (joinKey [[98], [99], [103]]) ≠ joinKey ([[97], [99], [103]].take m) := by
+  intro m
+  match m with
+  | 0 => decide
+  | 1 => decide
+  | 2 => decide
+  | (n+3) => simp only [List.take_succ_cons, List.take_nil]; decide
 
 end Idpy.Props.C14
